@@ -65,8 +65,14 @@ type (
 		Pipeline *syntax.Pipeline
 		Call     *syntax.CallStm
 		Binding  *syntax.BindStm
-		Mods     bool
-		Exp      syntax.Exp
+		// The id the binding had when this edit was made.  An edit made
+		// later in the same run may rename the parameter the binding is
+		// for, which changes Binding.Id, but that edit is also applied
+		// later, so this is the id the binding has when this edit is
+		// applied.
+		Id   string
+		Mods bool
+		Exp  syntax.Exp
 	}
 )
 
@@ -245,8 +251,12 @@ func (e editBinding) applyToCalls(calls []*syntax.CallStm) int {
 }
 
 func (e editBinding) apply(bindings []*syntax.BindStm) int {
+	id := e.Id
+	if id == "" {
+		id = e.Binding.Id
+	}
 	for _, bind := range bindings {
-		if bind.Id == e.Binding.Id {
+		if bind.Id == id {
 			bind.Exp = e.Exp
 			return 1
 		}
@@ -403,6 +413,7 @@ func removeRefFromBinding(edits editSet,
 		Pipeline: pipe,
 		Call:     call,
 		Binding:  binding,
+		Id:       binding.Id,
 		Exp:      exp,
 	})
 }
